@@ -8,11 +8,13 @@
     margin <same arguments as bane>                     -> `<float>`: the smallest relative distance of any value
                                                             from a clipping threshold over all nodes and both passes
                                                             (used by the harness to recognise rounding ties)
+    genbox r c bY bX dn nc ymin ymax nr                 -> rmin rmax cmin cmax data_row_min data_row_max (Gen.C06)
     dec <n> <f>                                         -> the map index of every row (column) of a compressed file
   anything else / malformed -> `bad-op`
 -/
 import Aegean.Driver.Common
 import Aegean.Model.C06
+import Aegean.Generated.C06
 
 namespace Drv.C06
 open Drv Aegean.Model.C06
@@ -113,6 +115,14 @@ def handle (ws : List String) : String :=
       let o := Aegean.Model.C06.run J.mode J.mask J.G J.stripes J.img
       s!"ok {showRows o.bkg} {showRows o.rms}"
     | none => "bad-op"
+  | "genbox" :: rest =>     -- the regenerated box bounds and loaded rows: r c bY bX dn nc ymin ymax nr
+    match rest.mapM String.toNat? with
+    | some [r, c, bY, bX, dn, nc, ymin, ymax, nr] =>
+      let i : List Int := [(Gen.C06.boxRMin r c bY bX dn nc : Int), (Gen.C06.boxRMax r c bY bX dn nc : Int),
+        (Gen.C06.boxCMin r c bY bX dn nc : Int), (Gen.C06.boxCMax r c bY bX dn nc : Int),
+        (Gen.C06.dataRowMin ymin ymax bY nr : Int), (Gen.C06.dataRowMax ymin ymax bY nr : Int)]
+      showInts i
+    | _ => "bad-op"
   | ["dec", n, f] =>      -- file index -> map index of a compressed output, for every file row/column
     match n.toNat?, f.toNat? with
     | some n, some f => if f = 0 then "bad-op" else showNats ((List.range ((n + f - 1) / f + 1)).map (decIdx n f))
